@@ -283,6 +283,9 @@ func runC18(p *Program, e *Engine, r *Result, tier string) {
 		}
 		if mu, ok := v.Instr.(*ssa.MapUpdate); ok && v.Ctx.fieldOfValue(mu.Map) == seenT {
 			marks++
+			if os.Getenv("C18DEBUG") != "" {
+				println("C18DEBUG mark", a.P.instrPos(mu), stripIDs(v.Cond.String()))
+			}
 		}
 	}
 	a.R.ob("C18.2", "add:silent", "adding a watch sends no event (pre-existing entries are not reported)", a.P.pos(ro.API["AddWith"].Pos()), sends == 0, sprintf("%d event-send call(s) reachable from AddWith", sends))
@@ -399,46 +402,7 @@ func runC18(p *Program, e *Engine, r *Result, tier string) {
 			a.R.Obligations[i].Key = "C18.5|" + strings.TrimPrefix(a.R.Obligations[i].Key, "C15.kqueue|")
 		}
 	}
-	// (6) when a watch's descriptor is released its name's 'seen' mark goes with it, unconditionally: afterwards nothing
-	// hears about that file any more, so nobody could clear the mark when the name disappears and comes back
-	for _, root := range []*ssa.Function{ro.API["Remove"], reader} {
-		if root == nil {
-			continue
-		}
-		rw := a.walk(root)
-		seenDel := map[string]DNF{}
-		for _, v := range rw.Visits {
-			if args, ok := isBuiltinCall(v.Instr, "delete"); ok && v.Ctx.fieldOfValue(args[0]) == seenT {
-				k := stripIDs(v.Ctx.path(args[1]))
-				seenDel[k] = seenDel[k].or(v.Cond)
-			}
-		}
-		done := map[string]bool{}
-		for _, v := range rw.Visits {
-			args, ok := isBuiltinCall(v.Instr, "delete")
-			if !ok || v.Ctx.fieldOfValue(args[0]) != kf.pathTable {
-				continue
-			}
-			k := stripIDs(v.Ctx.path(args[1]))
-			key := sprintf("%s:release-clears-seen(%s)", shortFn(root), tail(stripCallArgs(k), 60))
-			if done[key] {
-				continue
-			}
-			done[key] = true
-			okc, wit := false, "no delete of the seen mark for this name in this calling context"
-			if d, have := seenDel[k]; have {
-				h, ctr, err := implies(v.Cond, d)
-				if err != nil {
-					a.R.fail("%v", err)
-				}
-				okc, wit = h, "seen mark deleted whenever the path entry is"
-				if !h {
-					wit = "the seen mark survives the release when " + stripIDs(ctr)
-				}
-			}
-			a.R.ob("C18.6", key, "releasing a watch (path-table delete) also clears the name's 'seen' mark, so that the name is new again if it comes back", a.P.instrPos(v.Instr), okc, wit)
-		}
-	}
+	c18ReleaseClearsSeen(a, kf, seenT, reader, "C18.6")
 	c18RemoveBeforeCreate(a, "C18.7")
 	// (8) every descriptor the backend opens is registered for at least NOTE_DELETE and NOTE_RENAME: removal and rename of
 	// an entry (file or subdirectory) are reported whatever else is asked for
@@ -645,4 +609,61 @@ func sameActivation(uc, vc *Ctx, fn *ssa.Function) bool {
 	}
 	a, b := find(uc), find(vc)
 	return a != nil && a == b
+}
+
+// c18ReleaseClearsSeen: rule (6) of C18, shared with C01 (a Create lost after Remove and re-Add is a lost event).
+func c18ReleaseClearsSeen(a *An, kf *kqFacts, seenT *types.Var, reader *ssa.Function, rule string) {
+	ro := a.Ro
+	// (6) when a watch's descriptor is released its name's 'seen' mark goes with it, unconditionally: afterwards nothing
+	// hears about that file any more, so nobody could clear the mark when the name disappears and comes back
+	for _, root := range []*ssa.Function{ro.API["Remove"], reader} {
+		if root == nil {
+			continue
+		}
+		rw := a.walk(root)
+		seenDel := map[string]DNF{}
+		for _, v := range rw.Visits {
+			if args, ok := isBuiltinCall(v.Instr, "delete"); ok && v.Ctx.fieldOfValue(args[0]) == seenT {
+				k := stripIDs(v.Ctx.path(args[1]))
+				seenDel[k] = seenDel[k].or(v.Cond)
+			}
+		}
+		done := map[string]bool{}
+		for _, v := range rw.Visits {
+			args, ok := isBuiltinCall(v.Instr, "delete")
+			if !ok || v.Ctx.fieldOfValue(args[0]) != kf.pathTable {
+				continue
+			}
+			k := stripIDs(v.Ctx.path(args[1]))
+			key := sprintf("%s:release-clears-seen(%s)", shortFn(root), tail(stripCallArgs(k), 60))
+			if done[key] {
+				continue
+			}
+			done[key] = true
+			okc, wit := false, "no delete of the seen mark for this name in this calling context"
+			if d, have := seenDel[k]; have {
+				h, ctr, err := implies(v.Cond, d)
+				if err != nil {
+					a.R.fail("%v", err)
+				}
+				okc, wit = h, "seen mark deleted whenever the path entry is"
+				if !h {
+					wit = "the seen mark survives the release when " + stripIDs(ctr)
+				}
+			}
+			a.R.ob(rule, key, "releasing a watch (path-table delete) also clears the name's 'seen' mark, so that the name is new again if it comes back", a.P.instrPos(v.Instr), okc, wit)
+		}
+	}
+}
+
+// c18SeenTable: the 'seen' table of the kqueue backend (a string-keyed set that is not the user table).
+func c18SeenTable(a *An, kf *kqFacts) *types.Var {
+	var seenT *types.Var
+	for _, t := range a.Ro.Tables {
+		m := t.Type().Underlying().(*types.Map)
+		if isString(m.Key()) && isEmptyStruct(m.Elem()) && t != kf.userTable {
+			seenT = t
+		}
+	}
+	return seenT
 }
